@@ -27,6 +27,13 @@ type docParams struct {
 	Rows   int   `json:"rows,omitempty"`   // lines per column on two-column pages
 	ColMaj bool  `json:"colmaj,omitempty"` // two-column pages: content stream shows the left column first (else row by row)
 	Head   []int `json:"head,omitempty"`   // 1-based pages that start with a heading line in a large font
+	// Chap partitions the pages into chapters (lengths, in page order; pages beyond
+	// the sum belong to no chapter).  Every non-blank page of chapter k carries the
+	// chapter's own running head at the top (ChapHead) and/or running foot at the
+	// bottom (ChapFoot): a line that repeats on the pages of that chapter only.
+	Chap     []int `json:"chap,omitempty"`
+	ChapHead bool  `json:"chaphead,omitempty"`
+	ChapFoot bool  `json:"chapfoot,omitempty"`
 }
 
 const (
@@ -43,8 +50,43 @@ func (d docParams) key() string {
 	if len(d.Head) > 0 {
 		k += fmt.Sprintf("-head%v", d.Head)
 	}
+	if len(d.Chap) > 0 {
+		k += fmt.Sprintf("-chap%v-%v-%v", d.Chap, d.ChapHead, d.ChapFoot)
+	}
 	return k
 }
+
+// chapterOf is the 0-based chapter of page p (-1 when the page is in none).
+func (d docParams) chapterOf(p int) int {
+	end := 0
+	for k, n := range d.Chap {
+		end += n
+		if p >= 1 && p <= end {
+			return k
+		}
+	}
+	return -1
+}
+
+// chapterPages lists the pages (1-based, ascending) of chapter k.
+func (d docParams) chapterPages(k int) []int {
+	var out []int
+	for p := 1; p <= d.N; p++ {
+		if d.chapterOf(p) == k {
+			out = append(out, p)
+		}
+	}
+	return out
+}
+
+// names of chapters: words only, so that two chapters never differ by digits alone
+var chapWords = []string{"One", "Two", "Three", "Four", "Five", "Six", "Seven", "Eight", "Nine", "Ten", "Eleven", "Twelve", "Thirteen", "Fourteen"}
+
+func chapWord(k int) string { return chapWords[k%len(chapWords)] }
+
+// runningHead / runningFoot: the line every page of chapter k repeats.
+func (d docParams) runningHead(k int) string { return "Part " + chapWord(k) }
+func (d docParams) runningFoot(k int) string { return "Notes to Part " + chapWord(k) }
 
 func (d docParams) hasHead(p int) bool {
 	for _, h := range d.Head {
@@ -130,6 +172,15 @@ func (d docParams) describe() string {
 		return d.Kind + " file"
 	}
 	s := fmt.Sprintf("%d-page PDF", d.N)
+	if len(d.Chap) > 0 {
+		var cs []string
+		for k := range d.Chap {
+			if ps := d.chapterPages(k); len(ps) > 0 {
+				cs = append(cs, fmt.Sprintf("%q on pages %d-%d", chapWord(k), ps[0], ps[len(ps)-1]))
+			}
+		}
+		s += fmt.Sprintf(" with chapters %s (running head at the top: %v, running foot at the bottom: %v; document-wide header/footer: %v)", strings.Join(cs, ", "), d.ChapHead, d.ChapFoot, d.HF)
+	}
 	if !d.mixed() {
 		return s + fmt.Sprintf(" (every page %d full-width lines)", d.Lines)
 	}
@@ -165,6 +216,14 @@ func (d docParams) spec() docSpec {
 			if d.HF {
 				ps.lines = append(ps.lines, textLine{x: 72, y: 760, s: "Quarterly Report"})
 			}
+			// the chapter's running head: beside the document-wide header line when there is one
+			chapX := 72
+			if d.HF {
+				chapX = 330
+			}
+			if k := d.chapterOf(p); k >= 0 && d.ChapHead {
+				ps.lines = append(ps.lines, textLine{x: chapX, y: 760, s: d.runningHead(k)})
+			}
 			if d.hasHead(p) {
 				ps.lines = append(ps.lines, textLine{x: 72, y: 720, s: d.headToken(p) + " Title", size: 22})
 			}
@@ -190,6 +249,9 @@ func (d docParams) spec() docSpec {
 				for j := 0; j < d.Lines; j++ {
 					ps.lines = append(ps.lines, textLine{x: 72, y: 680 - 24*j, s: d.token(p, j) + " " + fillers[(p+j)%len(fillers)], glyphs: d.layoutOf(p) == layGlyphs})
 				}
+			}
+			if k := d.chapterOf(p); k >= 0 && d.ChapFoot {
+				ps.lines = append(ps.lines, textLine{x: chapX, y: 30, s: d.runningFoot(k)})
 			}
 			if d.HF {
 				ps.lines = append(ps.lines, textLine{x: 72, y: 30, s: "Confidential"})
@@ -280,6 +342,180 @@ func genLayout(r *hx.Rng, d *docParams) {
 			d.Layout[p-1] = hx.Pick(r, []int{laySingle, layTwoCol, layGlyphs})
 		}
 	}
+}
+
+// genChapDoc is a longer document divided into chapters whose pages repeat a
+// running head and/or foot of their own: text at the page edge that recurs on a
+// run of pages but not throughout the document (on a few pages, on about half of
+// them, on most of them - the chapter lengths are a random partition).  With the
+// Exclude* options the result for a page then depends on what counts as "repeated",
+// and the statement says it may not depend on which other pages are selected.
+func genChapDoc(r *hx.Rng, thorough bool) docParams {
+	d := docParams{Kind: "good", Tag: fmt.Sprintf("t%x", r.Intn(1<<16))}
+	maxN := 10
+	if thorough {
+		maxN = 14
+	}
+	d.N = r.Range(4, maxN)
+	d.Lines = r.Range(1, 2)
+	d.Nested = r.Chance(1, 3)
+	d.HF = r.Chance(1, 4)
+	if r.Chance(1, 6) {
+		for p := 1; p <= d.N; p++ {
+			if r.Chance(1, 5) {
+				d.Blank = append(d.Blank, p)
+			}
+		}
+	}
+	if r.Chance(1, 8) {
+		genLayout(r, &d)
+		if d.Rows > 14 {
+			d.Rows = 14
+		}
+	}
+	// chapters: a partition of a prefix of the pages; short chapters are the common case
+	left := d.N
+	if r.Chance(1, 4) {
+		left = r.Range(2, d.N) // trailing pages without a chapter
+	}
+	for left > 0 {
+		n := r.Range(1, min(left, hx.Pick(r, []int{2, 3, 4, 5, d.N})))
+		d.Chap = append(d.Chap, n)
+		left -= n
+	}
+	switch r.Intn(3) {
+	case 0:
+		d.ChapHead = true
+	case 1:
+		d.ChapFoot = true
+	default:
+		d.ChapHead, d.ChapFoot = true, true
+	}
+	return d
+}
+
+// spellSet spells the page set ps (ascending, non-empty) in one of many ways:
+// one range, several overlapping ranges, one Pages call in any order with
+// duplicates, chained calls, a mixture.
+func spellSet(r *hx.Rng, ps []int) []call {
+	contiguous := ps[len(ps)-1]-ps[0] == len(ps)-1
+	// maximal runs of consecutive pages
+	var runs [][2]int
+	for i := 0; i < len(ps); {
+		j := i
+		for j+1 < len(ps) && ps[j+1] == ps[j]+1 {
+			j++
+		}
+		runs = append(runs, [2]int{ps[i], ps[j]})
+		i = j + 1
+	}
+	shuffled := func() []int {
+		a := append([]int(nil), ps...)
+		for _, p := range ps {
+			if r.Chance(1, 4) {
+				a = append(a, p)
+			}
+		}
+		hx.Shuffle(r, a)
+		return a
+	}
+	var cs []call
+	switch r.Intn(5) {
+	case 0: // ranges, one per run (a single PageRange when the set is contiguous)
+		for _, ru := range runs {
+			cs = append(cs, call{K: "R", A: []int{ru[0], ru[1]}})
+		}
+		hx.Shuffle(r, cs)
+	case 1: // one Pages call
+		cs = append(cs, call{K: "P", A: shuffled()})
+	case 2: // chained calls of one to three pages each
+		a := shuffled()
+		for len(a) > 0 {
+			k := r.Range(1, min(3, len(a)))
+			cs = append(cs, call{K: "P", A: append([]int(nil), a[:k]...)})
+			a = a[k:]
+		}
+	case 3: // overlapping ranges that together cover a contiguous set, else runs and single pages mixed
+		if contiguous && len(ps) >= 2 {
+			m := r.Range(0, len(ps)-1)
+			m2 := r.Range(0, m)
+			cs = append(cs, call{K: "R", A: []int{ps[0], ps[m]}}, call{K: "R", A: []int{ps[m2], ps[len(ps)-1]}})
+		} else {
+			for _, ru := range runs {
+				if ru[0] == ru[1] || r.Bool() {
+					for p := ru[0]; p <= ru[1]; p++ {
+						cs = append(cs, call{K: "P", A: []int{p}})
+					}
+				} else {
+					cs = append(cs, call{K: "R", A: []int{ru[0], ru[1]}})
+				}
+			}
+		}
+		hx.Shuffle(r, cs)
+	default: // a range for the first run, Pages for the rest, an empty Pages() in between
+		cs = append(cs, call{K: "R", A: []int{runs[0][0], runs[0][1]}})
+		if r.Bool() {
+			cs = append(cs, call{K: "P"})
+		}
+		var rest []int
+		for _, ru := range runs[1:] {
+			for p := ru[0]; p <= ru[1]; p++ {
+				rest = append(rest, p)
+			}
+		}
+		if len(rest) > 0 {
+			hx.Shuffle(r, rest)
+			cs = append(cs, call{K: "P", A: rest})
+		}
+		if r.Bool() {
+			hx.Shuffle(r, cs)
+		}
+	}
+	return cs
+}
+
+// genChapSel selects pages of a chaptered document: a chapter with some of its
+// neighbours, a window, a scattered subset, the whole document, a few pages -
+// of every size from one page to all of them.
+func genChapSel(r *hx.Rng, d docParams) []call {
+	n := d.N
+	var ps []int
+	switch r.Intn(8) {
+	case 0, 1, 2: // one chapter and up to three pages before and after it
+		k := r.Intn(len(d.Chap))
+		cp := d.chapterPages(k)
+		lo, hi := cp[0]-r.Range(0, 3), cp[len(cp)-1]+r.Range(0, 3)
+		for p := max(lo, 1); p <= min(hi, n); p++ {
+			ps = append(ps, p)
+		}
+	case 3, 4: // a window of consecutive pages
+		w := r.Range(1, n)
+		lo := r.Range(1, n-w+1)
+		for p := lo; p < lo+w; p++ {
+			ps = append(ps, p)
+		}
+	case 5, 6: // a scattered subset: every page with probability 1/2 or 3/4
+		num := r.Range(2, 3)
+		for p := 1; p <= n; p++ {
+			if r.Chance(num, 4) {
+				ps = append(ps, p)
+			}
+		}
+		if len(ps) == 0 {
+			ps = []int{r.Range(1, n)}
+		}
+	default: // every page
+		ps = allPages(n)
+	}
+	return spellSet(r, ps)
+}
+
+// withExclude puts one of ExcludeHeaders / ExcludeFooters / ExcludeHeadersAndFooters
+// somewhere into the chain (before, between or after the selecting calls).
+func withExclude(r *hx.Rng, cs []call) []call {
+	f := call{K: hx.Pick(r, []string{"H", "F", "B"})}
+	pos := r.Intn(len(cs) + 1)
+	return append(cs[:pos:pos], append([]call{f}, cs[pos:]...)...)
 }
 
 // genSeqDoc is the document of an operation-sequence case: small, and with a
